@@ -443,7 +443,7 @@ def rule_lin(ctx: Ctx) -> RuleReport:
                     rep.ok({"branch": tag, "return": short(r.value, 50), "operand": v, "uses": 1})
                 elif k == 0 and (f"not {v}" in {str(c) for c in conds} or f"not {v}.strip()" in {str(c) for c in conds}):
                     rep.ok({"branch": tag, "return": short(r.value, 50), "operand": v, "uses": 0, "exempt": "operand is blank on this path"})
-                elif k == 0 and malformed and v in cond_txt:
+                elif k == 0 and malformed and (v in cond_txt or v in _cond_sources(conds, uses)) and _lone_bracket_test(ctx, pe, conds) is True:
                     rep.ok({"branch": tag, "return": short(r.value, 50), "operand": v, "uses": 0, "exempt": "lone bracket consumed by the malformed-radical path"})
                 else:
                     rep.fail(Finding("C19-LIN", OMML, pe.qual, f"m:{tag}: {short(r.value, 80)}", f"operand `{v}` of m:{tag} is emitted {k} times in `{short(r.value, 60)}` (must be exactly once)", line=r.lineno))
@@ -628,7 +628,13 @@ def rule_lin(ctx: Ctx) -> RuleReport:
     else:
         raise AnalysisError("C19-LIN: text-run branch no longer has the recognised structure")
     # convert_greek_and_symbols: one output element per input character, in order
-    r = compare(conv.node.body, "result = []\nfor char in text:\n    if char in GREEK_TO_LATEX:\n        result.append(GREEK_TO_LATEX[char])\n    else:\n        result.append(char)\nreturn ''.join(result)", params=["text"])
+    conv_body = [st for st in conv.node.body if not (isinstance(st, ast.Expr) and isinstance(st.value, ast.Constant))]
+    FORMS = ["result = []\nfor char in text:\n    if char in GREEK_TO_LATEX:\n        result.append(GREEK_TO_LATEX[char])\n    else:\n        result.append(char)\nreturn ''.join(result)",
+             "return ''.join((GREEK_TO_LATEX.get(char, char) for char in text))",
+             "return ''.join([GREEK_TO_LATEX.get(char, char) for char in text])",
+             "result = []\nfor char in text:\n    result.append(GREEK_TO_LATEX.get(char, char))\nreturn ''.join(result)"]
+    rs = [compare(conv_body, f_, params=[conv.node.args.args[0].arg], template_params=["text"]) for f_ in FORMS]
+    r = "equal" if "equal" in rs else "leaves" if "leaves" in rs else "other"
     if r == "equal":
         rep.ok({"convert_greek_and_symbols": "one output item per input character, in order"})
     elif r == "leaves":
@@ -636,6 +642,43 @@ def rule_lin(ctx: Ctx) -> RuleReport:
     else:
         raise AnalysisError("C19-LIN: convert_greek_and_symbols no longer has the recognised structure")
     return rep
+
+
+def _lone_bracket_test(ctx, pe, conds):
+    """True when some path condition is `<x> in <collection>` and the collection folds to a tuple / list / set / dict of single opening
+    brackets; False when it folds to a *string* (a substring test: the empty operand is 'in' it too); None when there is no such test"""
+    verdict = None
+    for c in conds:
+        try:
+            e = ast.parse(str(c), mode="eval").body
+        except SyntaxError:
+            continue
+        for cmp_ in [x for x in ast.walk(e) if isinstance(x, ast.Compare) and len(x.ops) == 1 and isinstance(x.ops[0], ast.In)]:
+            v = ctx.folder.fold(pe.module, cmp_.comparators[0])
+            if isinstance(v, str):
+                return False
+            if isinstance(v, (tuple, list, set, frozenset, dict)) and v and all(isinstance(k, str) and len(k) == 1 and k in "([{" for k in v):
+                verdict = True
+    return verdict
+
+
+def _cond_sources(conds, uses, depth=3) -> set:
+    """names the path conditions depend on, through the local definitions of the branch (`opener = content_text.strip()`)"""
+    names = set()
+    for c in conds:
+        try:
+            names |= {x.id for x in ast.walk(ast.parse(str(c), mode="eval")) if isinstance(x, ast.Name)}
+        except SyntaxError:
+            pass
+    for _ in range(depth):
+        more = set()
+        for n in names:
+            for d in uses.defs.get(n, []):
+                more |= {x.id for x in ast.walk(d) if isinstance(x, ast.Name)}
+        if more <= names:
+            break
+        names |= more
+    return names
 
 
 def _block_of(if_stmt, target):
